@@ -86,6 +86,25 @@ def decoy_configs(cfg):
         {"kind": k, "width": cfg["width"], "depth": cfg["depth"] % 3 + 1, "max_count": cfg.get("max_count", CEIL), "num_reserved": nr + 1}]
 
 
+def as_type(v, vt):
+    """multiplicities as the integer types callers really pass (counts often come out of numpy arrays)"""
+    if vt is None or v < 0:
+        return v
+    if vt == "i64" and v < 2**63:
+        return np.int64(v)
+    if vt == "u64" and v < 2**64:
+        return np.uint64(v)
+    if vt == "u32" and v < 2**32:
+        return np.uint32(v)
+    if vt == "i32" and v < 2**31:
+        return np.int32(v)
+    if vt == "u8" and v < 256:
+        return np.uint8(v)
+    if vt == "u16" and v < 65536:
+        return np.uint16(v)
+    return v
+
+
 def windows(key, n):
     if len(key) <= n:
         return [key]
@@ -263,7 +282,7 @@ class World:
         if self.kind in ("log16", "log8") and "draws" in step:
             plant(sk, step["draws"])
         if op == "add":
-            sut(sk.add, step["k"], step["v"])
+            sut(sk.add, step["k"], as_type(step["v"], step.get("vt")))
             self._model_add(i, step["k"], step["v"])
             return {i}
         if op == "add_default":  # add(key) with the default multiplicity
@@ -278,10 +297,10 @@ class World:
         if op == "update_dict":
             d = {}
             for k, v in step["items"]:
-                d[k] = v  # later duplicates overwrite, exactly as the dict the user would pass
+                d[k] = as_type(v, step.get("vt"))  # later duplicates overwrite, exactly as the dict the user would pass
             sut(sk.update, d)
             for k, v in d.items():
-                self._model_add(i, k, v)
+                self._model_add(i, k, int(v))
             return {i}
         if op == "add_ngram":
             sut(sk.add_ngram, step["k"], step["n"])
